@@ -18,6 +18,10 @@ def _regions(spec):
     elif amap == "mixed":         # different sizes, hole in the middle
         regs = [(0x00, 0x20), (0x80, 0x80), (0x40, 0x10)][:m]
         hole = 0x60
+    elif amap == "small":         # up to 6 slaves of 0x20 bytes, hole at the top (L2 lane: 4 x 4 instances)
+        assert m <= 6
+        regs = [(0x20 * j, 0x20) for j in range(m)]
+        hole = 0xe0
     elif amap == "all":           # single slave covering the whole space
         assert m == 1
         regs = [(0x00, 0x100)]
